@@ -107,6 +107,7 @@ Threshold(k) == IF k = "ff" THEN Strong ELSE Quorum
 WellFormedHalf(hf) ==
   /\ hf.mask \subseteq 0..(hf.len - 1)
   /\ hf.dup \subseteq hf.bag
+  /\ \A sg \in hf.bag : sg.by \in Vals \cup {Foreign, Garbled}   \* signatures that can exist
   /\ ~hf.p => hf = NoHalf
 
 WellFormedCert(c) ==
